@@ -2,12 +2,16 @@ package main
 
 func init() {
 	extractors = append(extractors, func() {
-		g := newGen("C20", "pkg/cgroup/v2_linux.go", "pkg/cgroup/utils_linux.go", "pkg/cgroup/v1_linux.go")
+		g := newGen("C20", "pkg/cgroup/v2_linux.go", "pkg/cgroup/utils_linux.go", "pkg/cgroup/v1_linux.go", "pkg/cgroup/cgroup_linux.go")
 		g.p("open GoSandbox.GoLite\n\n")
 		emitFunc(g, "cpuUsageV2", findFunc(parseFile("pkg/cgroup/v2_linux.go"), "V2", "CPUUsage"))
 		emitFunc(g, "ensureDirExists", findFunc(parseFile("pkg/cgroup/utils_linux.go"), "", "EnsureDirExists"))
 		emitFunc(g, "destroyV1", findFunc(parseFile("pkg/cgroup/v1_linux.go"), "V1", "Destroy"))
 		emitFunc(g, "destroyV2", findFunc(parseFile("pkg/cgroup/v2_linux.go"), "V2", "Destroy"))
 		emitFunc(g, "addProcV1", findFunc(parseFile("pkg/cgroup/v1_linux.go"), "V1", "AddProc"))
+		emitFunc(g, "newSubV2", findFunc(parseFile("pkg/cgroup/v2_linux.go"), "V2", "New"))
+		emitFunc(g, "nestV2", findFunc(parseFile("pkg/cgroup/v2_linux.go"), "V2", "Nest"))
+		emitFunc(g, "newV2", findFunc(parseFile("pkg/cgroup/cgroup_linux.go"), "", "newV2"))
+		emitFunc(g, "openExistingV1", findFunc(parseFile("pkg/cgroup/cgroup_linux.go"), "", "openExistingV1"))
 	})
 }
